@@ -986,6 +986,9 @@ def check_corr(case, col, record=True):
     if sorted(labels) != sorted(names) or sorted(cols) != sorted(names):
         col.violation("C20|corr|labels", f"{shape}: matrix labelled {labels} x {cols}, present samples are {names}", case)
         return
+    if labels != cols:
+        # "symmetric with unit diagonal" is a statement about the matrix as it is handed out (its values, a heat map of it)
+        col.violation("C20|corr|row-and-column-order", f"{shape}: rows are labelled {labels} but columns {cols}: entry [i, j] and entry [j, i] belong to different pairs of samples", case)
     M = np.asarray(df.values, dtype=float)
 
     def at(a, b):
